@@ -358,7 +358,7 @@ def run_diag(case):
 
 CHECK = Check(
     P, 'exploration',
-    rule=('sample: 1-4 parameter names in arbitrary (non-sorted) order, an optional extra output, 1-60 samples, weights none/positive, '
+    rule=('sample: 1-4 parameter names in arbitrary (non-sorted) order, the outputs dict keyed in parameter or shuffled order, an optional extra output, whole-number columns also as int64 arrays, 1-60 samples, weights none/positive, '
           'finite doubles incl. -0.0, 1e-300, 5e-324, |x| up to 1e150, saved to any sequence of pickle/json/csv and read back with the '
           'standard library; bolfi: chains (1-5 x 2-40 x 1-4) whose entries encode (chain, iteration, parameter) with every warm-up '
           'length; smc-bsl-samples: BslSample burn-in removal and SmcSample with 1-4 populations saved as json/pickle/csv; diagnostics: 1-6 AR(1) chains of length 4-120 (thorough 200) vs naive reference formulas, affine maps a x + b with '
